@@ -4,6 +4,9 @@ manifest stays valid while checks are added)."""
 import json, os
 ROOT = os.path.dirname(os.path.abspath(__file__))
 CHECKS = {
+ "C06": dict(level="exploration", technique="differential round-trip oracle against an independent RFC 5651/5775/6726/5445/5510/6330 codec; exhaustive field-width-class enumeration with boundary + seeded values",
+     text="Every combination of CCI/TSI/TOI width class, flags, FEC id and extension subset is driven through flute encoder -> flute decoder, flute encoder -> independent decoder and independent encoder (with unknown/long extensions, all admissible S/O/H classes, PSI/reserved bits, extension order) -> flute decoder, comparing full field records; overflow checks on. Held on the tuples run.",
+     note="trusted: vh::wire written from RFC field tables (appendix A), self-checked on every packet; Raptor FTI F/T position not judged against RFC 5053", ref="DESIGN.md §5 C06"),
  "C07": dict(level="exploration", technique="differential oracle: flute partition functions under overflow checks vs u128 RFC 5052 reference; complete small cube + boundary lattice + random; wire-structure + delivery monitor end to end",
      text="Every (B,E,L) of the stated cube is evaluated on the real functions (complete enumeration of that finite domain), plus boundary/random triples to 2^32/65535/2^48 with integer-overflow instrumentation on; end-to-end sessions check that the SBN/ESI structure on the wire and the receiver's reconstruction agree with the reference. Held-on-what-was-run, not a proof for other inputs.",
      note="trusted: u128 reference partition, independent wire decoder, rustc overflow-checks", ref="DESIGN.md §5 C07"),
